@@ -473,7 +473,16 @@ func visitInstr(fr *frame, instr ssa.Instruction) continuation {
 		fr.env[fr.info.index[instr]] = &closure{instr.Fn.(*ssa.Function), bindings}
 	case *ssa.Phi:
 		// handled at block entry
-	case *ssa.Go, *ssa.Send, *ssa.Select, *ssa.MakeChan:
+	case *ssa.Go:
+		fn, args := prepareCall(fr, &instr.Call)
+		e.spawn(fn, args)
+	case *ssa.Send:
+		ch, _ := fr.get(instr.Chan).(*chanv)
+		e.chanSend(ch, copyVal(fr.get(instr.X)))
+	case *ssa.MakeChan:
+		n := e.toInt(fr.get(instr.Size), instr.Size.Type())
+		fr.env[fr.info.index[instr]] = &chanv{cap: int(n), elem: instr.Type().Underlying().(*types.Chan).Elem()}
+	case *ssa.Select:
 		e.unsupported(fmt.Sprintf("%T in %s", instr, fr.fn))
 	default:
 		panic(fmt.Sprintf("unexpected instruction: %T", instr))
@@ -644,6 +653,11 @@ func (e *Engine) callBuiltin(caller *frame, fn *ssa.Builtin, args []value) value
 				return uint64(0)
 			}
 			return uint64(len(x.keys))
+		case *chanv:
+			if x == nil {
+				return uint64(0)
+			}
+			return uint64(len(x.buf))
 		}
 		panic(fmt.Sprintf("len of %T", args[0]))
 	case "cap":
@@ -653,6 +667,10 @@ func (e *Engine) callBuiltin(caller *frame, fn *ssa.Builtin, args []value) value
 		case array:
 			return uint64(len(x))
 		}
+	case "close":
+		ch, _ := args[0].(*chanv)
+		e.chanClose(ch)
+		return nil
 	case "delete":
 		m := args[0].(*mapv)
 		if m != nil {
